@@ -11,9 +11,14 @@ COMP = "robotools/liquidhandling/composition.py"
 UT = "robotools/utils.py"
 
 MUTANTS = [
-    dict(id="combine-wrong-weight", expect=["C05"], edits=[(COMP, "        volumetric_fractions[k] += f * volume_B", "        volumetric_fractions[k] += f * volume_A")]),
+    dict(id="rack-type-33", expect=["C09"], edits=[(WU, 'if not isinstance(rack_type, str) or len(rack_type) > 32 or ";" in rack_type:', 'if not isinstance(rack_type, str) or len(rack_type) > 33 or ";" in rack_type:')]),
+    dict(id="set-diti-after-wash", expect=["C09"], edits=[(BASE, 'if not (len(self) == 0 or self[-1][0] == "B"):', 'if not (len(self) == 0 or self[-1][0] in "BW"):')]),
+    dict(id="comment-sep-first-line", expect=["C09"], edits=[(BASE, '        if ";" in comment:', '        if ";" in comment.split("\\n")[0]:')]),
+    dict(id="decontaminate-diti-nonempty", expect=["C09"], edits=[(BASE, "        if self.diti_mode:\n            raise InvalidOperationError(\"Decontamination", "        if self.diti_mode and len(self) == 0:\n            raise InvalidOperationError(\"Decontamination")]),
+    dict(id="volume-upper-bound-removed", expect=["C09"], edits=[(WU, "    if volume < 0 or volume > 7158278 or numpy.isnan(volume):", "    if volume < 0 or numpy.isnan(volume):")]),
+    dict(id="volume-one-decimal", expect=["C09"], edits=[(WU, '    volume_str = f"{numpy.round(volume, decimals=2):.2f}"', '    volume_str = f"{numpy.round(volume, decimals=1):.2f}"')]),
+    dict(id="lc-sep-first-32", expect=["C09"], edits=[(WU, '    if not isinstance(liquid_class, str) or ";" in liquid_class:', '    if not isinstance(liquid_class, str) or ";" in liquid_class[:32]:')]),
     dict(id="combine-drop-zero-amount", expect=["C05"], edits=[(COMP, "    new_composition = {k: v / (volume_A + volume_B) for k, v in volumetric_fractions.items()}", "    new_composition = {k: v / (volume_A + volume_B) for k, v in volumetric_fractions.items() if v > 0}")]),
-    dict(id="default-name-shared", expect=["C05"], edits=[(COMP, '            default_name = f"{name}.{w}" if is_multiwell else name', '            default_name = f"{name}.{w[0]}" if is_multiwell else name')]),
     dict(id="fluent-dst-composition", expect=["C16", "C01"], edits=[(FLW, "                                compositions=[source.get_well_composition(s)],", "                                compositions=[destination.get_well_composition(d)],")]),
     dict(id="fluent-noop-rewrite", expect=[], silent=["C16"], edits=[(FLW, "                            nsteps += 1", "                            nsteps = nsteps + 1")]),
     dict(id="log-live-array", expect=["C11"], edits=[(LW, "        self._history.append(self.volumes)", "        self._history.append(self._volumes)")]),
